@@ -67,8 +67,10 @@ def coq_sources():
     return sorted(glob.glob(os.path.join(COQ, "theories", "**", "*.v"), recursive=True))
 
 
-def build_coq(clean=False):
-    """Full .vo build of the Coq development. Returns (ok, log, failing_file)."""
+def build_coq(clean=False, target=None):
+    """Full .vo build of the Coq development. Returns (ok, log, failing_file).
+    A table regenerated from a mutated source may break ANOTHER property's obligation; with a target
+    (theories/Properties/Cxx.vo) the build keeps going (-k) and succeeds iff that target is built."""
     with Lock("coq"):
         from . import gen
         gen.regenerate_all()
@@ -80,7 +82,13 @@ def build_coq(clean=False):
             rc, out = sh(["coq_makefile", "-f", "_CoqProject", "-o", "Makefile"], cwd=COQ)
             if rc != 0:
                 return False, out, None
-        rc, out = sh(["timeout", "3000", "make", "-j16"], cwd=COQ, timeout=3100)
+        rc, out = sh(["timeout", "3000", "make", "-j16"] + (["-k"] if target else []), cwd=COQ, timeout=3100)
+        if rc != 0 and target:
+            rc2, out2 = sh(["timeout", "3000", "make", target], cwd=COQ, timeout=3100)
+            if rc2 == 0:
+                rc, out = 0, out + "\n(other targets failed; %s is built)\n" % target
+            else:
+                out = out2
         with open(os.path.join(WORK, "coq-build.log"), "w") as f:
             f.write(out)
         failing = None
@@ -91,13 +99,22 @@ def build_coq(clean=False):
         return rc == 0, out, failing
 
 
+def property_files(prop):
+    """Properties/<prop>.v and its continuation files Properties/<prop><Suffix>.v (suffix starts with a letter or _)."""
+    d = os.path.join(COQ, "theories", "Properties")
+    fs = []
+    for f in sorted(os.listdir(d)) if os.path.isdir(d) else []:
+        if re.match(r'^%s([A-Za-z_][A-Za-z0-9_]*)?\.v$' % re.escape(prop), f):
+            fs.append(os.path.join(d, f))
+    return fs
+
+
 def property_theorems(prop):
-    """Names of the Theorem statements of Properties/<prop>.v, in order."""
-    p = os.path.join(COQ, "theories", "Properties", prop + ".v")
-    if not os.path.exists(p):
-        return []
-    src = open(p).read()
-    return re.findall(r'^\s*Theorem\s+([A-Za-z0-9_\']+)', src, flags=re.M)
+    """Names of the Theorem statements of the property's statement files, in order."""
+    names = []
+    for p in property_files(prop):
+        names += re.findall(r'^\s*Theorem\s+([A-Za-z0-9_\']+)', open(p).read(), flags=re.M)
+    return names
 
 
 def coq_assumptions(prop):
@@ -108,7 +125,7 @@ def coq_assumptions(prop):
     os.makedirs(d, exist_ok=True)
     vf = os.path.join(d, "Assum_%s.v" % prop)
     with open(vf, "w") as f:
-        f.write("From Avfs Require Import %s.\n" % prop)
+        f.write("From Avfs Require Import %s.\n" % " ".join(os.path.basename(x)[:-2] for x in property_files(prop)))
         for n in names:
             f.write('Goal True. idtac "@@THEOREM %s". Abort.\nPrint Assumptions %s.\n' % (n, n))
     rc, out = sh(["coqc", "-Q", os.path.join(COQ, "theories"), "Avfs", vf], cwd=d, timeout=600)
@@ -237,7 +254,8 @@ class Ctx:
     # ---- proofs
     def proofs(self, extra_obligations=0):
         """Build the Coq development, count the property's theorems, record assumptions."""
-        ok, out, failing = build_coq(clean=(self.tier == "thorough" and os.environ.get("VERIF_NO_CLEAN") != "1"))
+        ok, out, failing = build_coq(clean=(self.tier == "thorough" and os.environ.get("VERIF_NO_CLEAN") != "1"),
+                                     target="theories/Properties/%s.vo" % self.prop)
         names = property_theorems(self.prop)
         self.coverage["obligations"] = len(names) + extra_obligations
         self.coverage["theorems"] = names
@@ -416,7 +434,10 @@ def load_known_findings(prop):
                 e = json.loads(line)
             except Exception:
                 continue
-            if e.get("property") == prop and e.get("status", "open") == "open":
+            props_ = e.get("property")
+            if not isinstance(props_, list):
+                props_ = [props_]
+            if prop in props_ and e.get("status", "open") == "open":
                 res.append(e)
     return res
 
@@ -493,4 +514,4 @@ def main(argv):
     except Exception as e:  # a crash of the machinery must not look like a pass
         import traceback
         ctx.broken("check-crash", "the check itself crashed: %r" % (e,), traceback.format_exc()[-3000:])
-    return ctx.finish()
+    return ctx.finish(write_evidence=not prop.startswith("FS") and not prop.endswith("DEV"))
